@@ -21,19 +21,7 @@ Clip(n, x) == IF x < 0 THEN (IF n + x < 0 THEN 0 ELSE n + x) ELSE IF x > n THEN 
 SlicePath(p, a, b) == LET n == Len(p.parts)  lo == Clip(n, a)  hi == Clip(n, b)
                           ps == IF lo < hi THEN SubSeq(p.parts, lo + 1, hi) ELSE <<>> IN
                       PathT(ps, ps = <<>>, "none", "none")
-\* simplify(): a primitive where the part is what the primitive is coerced to (labels are ignored by simplify),
-\* the part itself otherwise.  Result: sequence of [prim, v | part]
-SimplifyPart(p) ==
-  IF p.pk = "map" /\ p.cond.t = "leaf" /\ p.cond.datum = "key" /\ p.cond.pre = "none" /\ p.cond.fn = "equal_to"
-     /\ Len(p.cond.kw) = 1
-  THEN [prim |-> TRUE, v |-> p.cond.kw[1].v, part |-> p]
-  ELSE IF p.pk = "mol" /\ p.cond.t = "null"
-          /\ p.lcond.t = "leaf" /\ p.lcond.datum = "index" /\ p.lcond.pre = "none" /\ p.lcond.fn = "equal_to"
-          /\ p.mcond.t = "leaf" /\ p.mcond.datum = "key" /\ p.mcond.pre = "none" /\ p.mcond.fn = "equal_to"
-          /\ Len(p.lcond.kw) = 1
-  THEN [prim |-> TRUE, v |-> p.lcond.kw[1].v, part |-> p]
-  ELSE [prim |-> FALSE, v |-> None, part |-> p]
-Simplify(path) == [j \in 1..Len(path.parts) |-> SimplifyPart(path.parts[j])]
+\* simplify(): see Path.tla (SimplifyPart / Simplify) - also used by the documentation tree (Tree.tla)
 
 (***************************************************************************)
 (* validate_rule_paths                                                     *)
